@@ -944,6 +944,12 @@ LOSSY_EXEMPT = {
 }
 
 
+def _reference_units(mod: str) -> set:
+    """names of the top-level functions / classes of `mod` on the tree the rules were written on (sv/reference_locals.json)"""
+    from . import alpha
+    return {u.split(".")[0] for u in alpha.reference().get(mod, {})}
+
+
 def rule_value_preserving(rep: Report, repo: Repo, modules=None):
     """`modules`: restrict the inventory to these modules (a property about one component is not answerable for conversions elsewhere)."""
     R = "E4.lossless"
@@ -1011,6 +1017,11 @@ def rule_value_preserving(rep: Report, repo: Repo, modules=None):
                     continue
             if key in LOSSY_EXEMPT:
                 rep.ok(R, f"{mod}::{q} {what} `{txt[:60]}` (exempt)", LOSSY_EXEMPT[key], repo.loc(mod, node))
+            elif kind in {k_[2] for k_ in LOSSY_EXEMPT} and q.split(".")[0] not in _reference_units(mod):
+                # a conversion of a kind that is exact in the places listed above, in a function that did not exist when the list was
+                # written (an extracted helper): whether it is one of those places is not something the list can say
+                raise AnalysisError(R, f"{mod}::{q} {what} `{txt[:60]}` sits in a function this rule has no context for (conversions of this kind "
+                                       "are exact where they are listed: boolean masks to 0/1, tolerance tests, clustering coordinates)")
             else:
                 rep.fail(R, f"{mod}::{q} applies {what} to a computed value: `{txt[:80]}`",
                          "element values must be passed on as computed; a cast to the input's dtype, a rounding or a real-part "
